@@ -54,6 +54,7 @@ def run(chk: Check):
     if r.error != "invariant:RebuildAccepted":
         raise MachineryError("DetachSeed = FALSE should violate RebuildAccepted")
     traces = [B.random_trace(rng, nops=rng.randint(8, 18)) for _ in range(400 if chk.quick else 6000)]
+    traces += B.dropped_then_subgraph_traces()
 
     def nontrivial(t):
         evs = t["ev"]
